@@ -43,11 +43,15 @@ def opOf (j : Json) : Except String Op := do
 def outcome (o : Except PyErr Outcome) : Json :=
   match o with
   | .error .valueError => Json.mkObj [("err", Json.str "ValueError")]
-  | .ok o => Json.mkObj [("err", Json.null), ("bad", Json.arr (o.bad.map s2j).toArray), ("reported", pairs (reported o)),
+  | .ok o => Json.mkObj [("err", Json.null), ("bad", Json.arr (o.bad.map s2j).toArray), ("reported", pairs (named o)),
+                         ("printed", Json.arr ((printed o.bad).map s2j).toArray),
                          ("classMsg", Json.bool o.classMsg), ("anyMessage", Json.bool o.anyMessage)]
 
 /-- {"op":"check","atoms":[[name,resi]…],"resis":[[class,num]…],"kw":"SADI_CCF3","toks":[…]} →
-    model (the code with fixes C17_1..4), legacy (the code before them), spec -/
+    model (the code with fixes C17_1..4), legacy (the code before them), spec.
+    With "lines":[physical lines of the restraint…] and "numeric":[the tokens that are numbers…] the model starts at the
+    physical lines (`assignLines`: continuation loop, split, Restraint.__init__) and the spec restraint is the one the
+    layout denotes (`restrOfLines`, C05.norm); "kw"/"toks" are then not read. -/
 def handle (j : Json) : Except String Json := do
   let op ← strField j "op"
   match op with
@@ -59,11 +63,30 @@ def handle (j : Json) : Except String Json := do
       | none => pure []
     -- the state after the history (no ops: the freshly parsed file, cache empty)
     let f : File := run { atoms, resis } ops
-    let r : Restr := { kw := (← strField j "kw").toList, atoms := (← field j "toks" >>= strs).map String.toList }
+    let lines : Option (List (List Char)) ← match fieldOpt j "lines" with
+      | some o => do pure (some ((← strs o).map String.toList))
+      | none => pure none
+    let nums : List Str ← match fieldOpt j "numeric" with
+      | some o => do pure ((← strs o).map String.toList)
+      | none => pure []
+    let isNum : Str → Bool := fun t => nums.contains t
+    let r : Restr ← match lines with
+      | some ls =>
+        match restrOfLines isNum ls 0 with
+        | some r => pure r
+        | none => err "C17: the physical lines are no valid layout of an instruction (C05.norm)"
+      | none => pure { kw := (← strField j "kw").toList, atoms := (← field j "toks" >>= strs).map String.toList }
+    let modelOut : Json := match lines with
+      | some ls =>
+        match assignLines isNum f ls 0 with
+        | some e => outcome e
+        | none => Json.mkObj [("err", Json.str "no-restraint")]
+      | none => outcome (assign f r)
     let spec := Json.mkObj [
       ("missing", pairs (missing f r)),
       ("wf", Json.bool (decide (WellFormed f r))),
       ("wfData", Json.bool (wfFile f && wfKw r.kw && r.atoms.all wfTok)),
+      ("kw", s2j r.kw), ("toks", Json.arr (r.atoms.map s2j).toArray),
       ("coherent", Json.bool (coherent f)),
       ("apiOnly", Json.bool (ops.all Op.keepsIndex)),
       ("atomsAfter", Json.arr (f.atoms.map fun a => Json.arr #[s2j a.name, ofNat a.resi]).toArray),
@@ -79,7 +102,7 @@ def handle (j : Json) : Except String Json := do
     let lookup := Json.mkObj [
       ("model", Json.arr (probes.map fun a => Json.bool (getAtomByName f (a.name ++ '_' :: natStr a.resi))).toArray),
       ("spec", Json.arr (probes.map fun a => Json.bool (atomExists f (upper a.name) a.resi)).toArray)]
-    return Json.mkObj [("model", outcome (assign f r)), ("legacy", outcome (Legacy.assign f r)), ("spec", spec), ("lookup", lookup)]
+    return Json.mkObj [("model", modelOut), ("legacy", outcome (Legacy.assign f r)), ("spec", spec), ("lookup", lookup)]
   | "report" =>
     -- a name as printed after 'Atom list has no -->' read back as (NAME, residue)
     let names ← field j "names" >>= strs
